@@ -26,7 +26,7 @@ import nfc.llcp.pdu as P
 logging.disable(logging.CRITICAL)
 
 TARGETS = ['Model/Pdu.vo', 'Proofs/PduBase.vo', 'Proofs/PduWin.vo', 'Proofs/PduLen.vo', 'Proofs/PduRt.vo',
-           'Proofs/PduTotal.vo', 'Model/PduSpec.vo', 'Proofs/PduAgf.vo', 'Proofs/PduSound.vo', 'Bridge/Pdu.vo']
+           'Proofs/PduTotal.vo', 'Model/PduSpec.vo', 'Proofs/PduAgf.vo', 'Proofs/PduSound.vo', 'Bridge/Pdu.vo', 'Bridge/PduF.vo']
 
 # ------------------------------------------------------------------------------------------------
 # specs: JSON-able description of a PDU object
@@ -656,14 +656,17 @@ def main():
                   'translate/py2coq.py; translate/kspec_c10.py (MIUX reserved-bit test and mask kernels, cited from Gen/CollectK.v)',
                   'extraction: ExtrOcamlBasic only; extract/c11_run.ml driver (PDU text syntax parser/printer); OCaml 4.13.1',
                   'correspondence harness harness/prop/c11.py (field dump of the Python PDU objects, reference reader)']
-    ck.assumptions = ['__len__ bridge: Connect/ConnectionComplete .miu and .rw are ints (never None), as produced by decode and by every constructor call in nfcpy',
+    ck.assumptions = ['whole-function translation (Gen/PduF.v): PDU field values are ints / bytes (`x is None` on them is False, rw / miu are never None), '
+                      '`size` is always passed, Parameter.decode\'s dynamically typed V is represented by the model\'s tlv constructors, '
+                      'Python recursion decode -> AggregatedFrame.decode -> decode is fuelled (depth 400, proved never to exceed 2)',
+                      '__len__ bridge: Connect/ConnectionComplete .miu and .rw are ints (never None), as produced by decode and by every constructor call in nfcpy',
                       'offset >= 0 (a negative offset makes struct.unpack_from index from the end; no caller does that)',
                       'PDU field values are Python ints / bytes (None only where the class defines it as "absent")',
                       'encode()/len() of hand-built AggregatedFrame objects nested deeper than CPython\'s recursion limit '
                       'are outside the model (a valid aggregate does not contain aggregates)',
                       'field-wise equality after re-encoding identifies an empty service name / ECPK / RN with an absent one '
                       '(neither is encoded); Python\'s own == (equality of encodings) holds without this identification']
-    ck.coq(gen=['PduLen', 'PduK', 'CollectK'], targets=TARGETS, props='C11')
+    ck.coq(gen=['PduLen', 'PduK', 'CollectK', 'PduF'], targets=TARGETS, props='C11')
     mr = ck.model()
     if mr is None:
         ck.finish()
